@@ -59,7 +59,7 @@ def h_impute(sym, P=3):
     sym.goal("end")
 
 
-VALS = {"a": [1, 2, 3], "c": ["x", "y"]}
+VALS = {"a": [1, 2.0, 3], "c": ["x", "y"]}      # 2.0: an integer hyperparameter given as float (e.g. from JSON)
 
 
 def _space():
@@ -84,7 +84,7 @@ def _p2e(sym, P):
 def _ref_impute(pts):
     out = []
     for p in pts:
-        c = {"a": p.get("a", 2), "c": p.get("c", "x")}
+        c = {"a": int(p.get("a", 2)), "c": p.get("c", "x")}
         if c not in out:
             out.append(c)
     return out
